@@ -88,6 +88,7 @@ pub fn stream_handles_clear(reg: &Arc<Registry>) {
 const CORPUS: &[&str] = &[
     "foo", "foo$a", "foo$ab", "xfoo", "a b", "a\\b", "bar", "baz", "foobar", "Foo", "f\u{f3}o", "a", "ab", "abc", "b a", "$", "foo$", "oof",
     "fo", "o", "foo bar", "bar/foo", "a\\ b", "!foo", "^foo", "fooa", "afoo", "b", "ba r", "r\r\nab", "FOO$A", "ab$", "a$b", "x", "\u{e9}ab",
+    "\u{c9}ab", "\u{e9}a b", "f\u{d3}o",
 ];
 
 /// matcher column text is a pure function of (id, column)
@@ -1372,7 +1373,7 @@ pub struct Opts {
 
 const PATTERN_SCRIPTS: &[&str] = &[
     "foo$a", "a\\ b", "foo", "ba r", "!foo", "^fo", "foo$", "a\\b", "f\u{f3}o", "Foo", "'ab", "a b", "fo o$", "\\$", "foo\\$a", "b !a", "a\\", "$", "ab$ x",
-    "o", "^foo$", "x", "foo$ab",
+    "o", "^foo$", "x", "foo$ab", "\u{c9}", "\u{c9}a", "f\u{d3}o", "\u{c9} b",
 ];
 
 fn flush(w: &mut World, rep: &mut Report, props: &[&str], extra: &J) {
